@@ -348,6 +348,20 @@ pub fn run(rep: &mut Report) {
                 j_pair(&a, &b, out)
             }
         });
+        // an ET / TDB operand (produced by the real conversion) against an instant 101 ns .. 1 us away held in another scale:
+        // the statement holds "for instants more than 100 ns apart" at every magnitude of the count
+        sweep(rep, "c12.scan_etdb", 2 * 7 * 12 * (nsc / 40), |i, out| {
+            let k = i / 168;
+            let t = match k % 3 { 0 => crate::lattice::scan_point(k, 4, -100 * NPC, 100 * NPC), 1 => J2000_TAI + crate::lattice::scan_magnitude(k, 5, 20, 62), _ => J2000_TAI + crate::lattice::scan_point(k, 0, -1_100_000_000 * NS, 1_100_000_000 * NS) };
+            let ts = [TimeScale::ET, TimeScale::TDB][(i % 2) as usize];
+            let gap = [101i128, 105, 110, 119, 130, 1000, -101, -105, -110, -119, -130, -1000][((i / 14) % 12) as usize];
+            let e = Epoch::from_duration(crate::oracle::dur::mk(t), TimeScale::TAI).to_time_scale(ts);
+            let a = Pt { ts, c: alpha(e.duration), tai: t, exact: false };
+            if let Some(b) = mk(t + gap, xs[((i / 2) % 7) as usize]) {
+                j_pair(&a, &b, out);
+                j_pair(&b, &a, out);
+            }
+        });
         sweep(rep, "c12.scan_convert", 7 * 49 * (nsc / 160), |i, out| {
             let k = i / 343;
             let t = crate::lattice::scan_point(k, 2, -100 * NPC, 100 * NPC);
